@@ -176,7 +176,7 @@ func TestC15Frames(t *testing.T) {
 		run(rp, t.Fatalf)
 		return
 	}
-	rapid.Check(t, func(rt *rapid.T) {
+	checkBudget(t, func(rt *rapid.T) {
 		fcs := rapid.SliceOfN(rapid.Custom(genFrame), 1, 4).Draw(rt, "frames")
 		run(fcs, rt.Fatalf)
 	})
@@ -701,7 +701,7 @@ func c15RunScripts(t *testing.T, test string, withFailure bool) {
 		run(rp, t.Fatalf)
 		return
 	}
-	rapid.Check(t, func(rt *rapid.T) {
+	checkBudget(t, func(rt *rapid.T) {
 		run(genPeerScript(rt, withFailure), rt.Fatalf)
 	})
 }
